@@ -6,9 +6,11 @@ package main
 import (
 	"bytes"
 	"fmt"
+	"io"
 	"net/http"
 	"net/url"
 	"sort"
+	"testing/iotest"
 
 	"github.com/WICG/webpackage/go/bundle"
 	"github.com/WICG/webpackage/go/bundle/version"
@@ -181,10 +183,23 @@ func write(r *mon.Run, id string, b *bundle.Bundle) ([]byte, error, bool) {
 	return buf.Bytes(), err, false
 }
 
+var readNo int
+
 func read(r *mon.Run, id string, w []byte) (*bundle.Bundle, error) {
 	var b *bundle.Bundle
 	var err error
-	p, pv := r.Call(id, w, func() { b, err = bundle.Read(bytes.NewReader(w)) })
+	// the kind of reader rotates: bytes.Reader, one byte per Read, data+EOF in one call, a reader without optional methods
+	readNo++
+	var src io.Reader = bytes.NewReader(w)
+	switch readNo % 4 {
+	case 1:
+		src = iotest.OneByteReader(bytes.NewReader(w))
+	case 2:
+		src = iotest.DataErrReader(bytes.NewReader(w))
+	case 3:
+		src = struct{ io.Reader }{bytes.NewReader(w)}
+	}
+	p, pv := r.Call(id, w, func() { b, err = bundle.Read(src) })
 	if p {
 		return nil, fmt.Errorf("panic: %v", pv)
 	}
@@ -295,6 +310,28 @@ func run(r *mon.Run) {
 				continue
 			}
 			outcome = "roundtrip+fixpoint-ok"
+		}
+		// the same Bundle object written again gives the same bytes; after one more exchange is appended to it, the
+		// next write holds exactly the old exchanges plus the new one
+		if i%3 == 0 {
+			wAgain, err, _ := write(r, fmt.Sprintf("write-again/%d", i), b)
+			if err != nil || !bytes.Equal(wAgain, w1) {
+				fail("REWRITE-DIFFERS", fmt.Sprintf("writing the same Bundle object a second time gives different bytes (err=%v)", err))
+				continue
+			}
+			extraURL, _ := url.Parse(fmt.Sprintf("https://added.example/%d", i))
+			grown := *b
+			grown.Exchanges = append(append([]*bundle.Exchange{}, b.Exchanges...), &bundle.Exchange{Request: bundle.Request{URL: extraURL, Header: http.Header{}}, Response: bundle.Response{Status: 200, Header: http.Header{"X-Added": {"1"}}, Body: []byte("added later")}})
+			if wg, err, _ := write(r, fmt.Sprintf("write-grown/%d", i), &grown); err != nil {
+				fail("GROWN-REFUSED", fmt.Sprintf("bundle with one more exchange refused: %v", err))
+				continue
+			} else if rg, err := read(r, fmt.Sprintf("read-grown/%d", i), wg); err != nil {
+				fail("GROWN-UNREADABLE", err.Error())
+				continue
+			} else if problem = diffGroups(expected(&grown, sets), groupImpl(rg)); problem != "" {
+				fail("GROWN-MISMATCH", "after appending an exchange to the same bundle: "+problem)
+				continue
+			}
 		}
 		r.Eval(outcome)
 		r.Distinct(fmt.Sprintf("%s|n%d|p%v|m%v|s%v|v%d|mk%v|big%d|len%d", b.Version, len(b.Exchanges), b.PrimaryURL != nil, b.ManifestURL != nil, b.Signatures != nil, len(sets), o.MultiKey, o.Big, len(w1)/64))
